@@ -53,6 +53,7 @@ pub fn exec<T: Payload>(prop: &str, cfg: &ExecCfg, mut next: impl FnMut(&World<T
     let mut steplog: Vec<u64> = Vec::new();
     let mut found: Option<Found> = None;
     let mut truncated = false;
+    let mut blind_used = false;
     if let Some(v) = v0.into_iter().find(|v| owns(prop, v)) {
         found = Some(Found {
             viol: v,
@@ -82,6 +83,16 @@ pub fn exec<T: Payload>(prop: &str, cfg: &ExecCfg, mut next: impl FnMut(&World<T
             break;
         }
         if world.diverged {
+            let cyclic = out.viols.iter().any(|v| v.prop == "C02");
+            if (prop == "C01" || prop == "C02") && !world.blind && !blind_used && !cyclic {
+                // C01 / C02 are model-free: go on blind (ids live in the real arena, only the
+                // structural invariants are evaluated), so that damage that needs further steps
+                // to turn into a malformed or cyclic forest is still found
+                world.blind = true;
+                world.diverged = false;
+                blind_used = true;
+                continue;
+            }
             // another property's business made the real state uninterpretable for the model:
             // this run ends silently (it neither alarms nor keeps going)
             truncated = true;
